@@ -1,6 +1,7 @@
 """C05 -- graceful shutdown drains all submitted work and leaves nothing behind."""
 from ..rules import liveness as L
 from ..rules import shutdown as S
+from ..rules import timeouts as T
 
 EXPLANATION = (
     "Static analysis. Decides: shutdown() flags under the lock, wakes, joins only conditionally on `wait` under the lock "
@@ -24,7 +25,9 @@ def run(e, R, tier):
         S.r_no_strong_ref,
         S.r_atexit,
         L.r_wake_lock,
+        L.r_wake_clear,
         L.r_nulled,
         L.r_mgr_self,
+        T.r_respawn_guard,
     ])
     R.trust("threading._register_atexit hooks run before non-daemon threads are joined; weakref callbacks run when the referent dies")
